@@ -700,13 +700,28 @@ func (r *Run) merge2(a, b *State) *State {
 		va := a.vars[k]
 		vb, ok := b.vars[k]
 		if !ok {
-			delete(out.vars, k)
+			// the variable is not in scope on the other path: there its value is irrelevant (arbitrary)
+			if tv, isTV := va.(TV); isTV && tv.T != nil && !strings.HasPrefix(k, "undef:") {
+				other := r.declare("oos_"+k, tv.Sort)
+				out.vars[k] = TV{r.define("m", tv.Sort, ite(c, tv.S, other)), tv.Sort, tv.T}
+			} else {
+				delete(out.vars, k)
+			}
 			continue
 		}
 		if m, ok := r.mergeVal(c, va, vb); ok {
 			out.vars[k] = m
 		} else {
 			delete(out.vars, k)
+		}
+	}
+	for _, k := range sortedKeys(b.vars) {
+		if _, inA := a.vars[k]; inA {
+			continue
+		}
+		if tv, isTV := b.vars[k].(TV); isTV && tv.T != nil && !strings.HasPrefix(k, "undef:") {
+			other := r.declare("oos_"+k, tv.Sort)
+			out.vars[k] = TV{r.define("m", tv.Sort, ite(c, other, tv.S)), tv.Sort, tv.T}
 		}
 	}
 	names := map[string]bool{}
